@@ -88,6 +88,25 @@ impl VerifWorker {
     }
 
     /// One iteration of `worker_message_loop`; returns true when the worker was told to stop.
+    /// Makes the worker `d` older (its remaining life time shrinks by `d`): stands for the time that passes on the
+    /// worker between the moment the server judged a placement and the arrival of the message.
+    pub fn age(&self, d: std::time::Duration) {
+        let mut state = self.state_ref.get_mut();
+        if let Some(t) = state.start_time.checked_sub(d) {
+            state.start_time = t;
+        }
+    }
+
+    /// `WorkerState::remaining_time` (None = no time limit); 0 when the limit has already passed.
+    pub fn remaining_ms(&self) -> Option<u64> {
+        let state = self.state_ref.get();
+        state.configuration.time_limit.map(|limit| {
+            limit
+                .saturating_sub(std::time::Instant::now() - state.start_time)
+                .as_millis() as u64
+        })
+    }
+
     pub fn process(&self, message: ToWorkerMessage) -> bool {
         let mut state = self.state_ref.get_mut();
         process_worker_message(&mut state, message)
